@@ -51,10 +51,12 @@ class DensityEstimator(ABC):
         # switch variables to the centre and width of the interval
         c = 0.5 * (lwr + upr)
         w = upr - lwr
-        if not w > 0:
-            # the requested fraction holds less than one sample, so the sample gives
-            # no starting interval: start from the mode, with the width over which
-            # the peak density integrates to the requested fraction
+        if not w > 0 or fraction * len(self.sample) < 50:
+            # the requested fraction holds less than one sample point - or only a few,
+            # whose tightest cluster lies anywhere in the sample and is far narrower than
+            # the interval sought - so the sample gives no useful starting interval: start
+            # from the mode, with the width over which the peak density integrates to
+            # the requested fraction
             c = self.mode
             w = fraction / self(self.mode)
 
